@@ -10,18 +10,31 @@ Reuses the seams of the per-carrier harnesses (imported, not copied):
   helpers   discovery of the typed request helpers
 
 A case (JSON):
-  xs     [{"call": {"h": helper name | "send_message" | "send_initialize", "method", "params", "id": {"i"}|{"s"}|absent},
-           "notifs": [{"method", "params"|absent}], "reply": {"result": obj} | {"error": obj},
+  xs     [{"call": {"h": helper name | "send_message" | "send_initialize" | "raw", "method", "params",
+                    "id": {"i"}|{"s"}|absent, "progress": bool (send_message with a progress callback),
+                    "reuse": bool (the very params object of the previous call), "form": "request"|"legacy"|"dict"
+                    and "pause": ticks between writing and reading (raw: the request is written to the write stream
+                    and the answer awaited on the read stream by hand — ids the helpers cannot produce: 0, "")},
+           "notifs": [{"method", "params"|absent}]   ("$TOK" in params = the progress token of the request),
+           "reply": {"result": obj} | {"error": obj},
+           "after": [{"method", "params"} | {"dup": true}]   sent after the reply (a notification, the reply again),
+           "echo": bool   the server puts the method and params it received into the result,
+           "D": helper timeout of this call in ticks (tiny / 0: the call times out, the conversation goes on),
            "lat": ticks until the server's first byte, "gap": ticks between pieces}]
-  style  {"sp": bool, "ascii": bool}     how the scripted server writes JSON text
+  style  {"sp": bool, "ascii": bool, "order": "rev"|absent, "extra": bool}   how the scripted server writes JSON text
+         (separators, escaping, top-level members in reverse order, an extra top-level member)
   D      helper timeout in ticks (1/1024 s)
   tie    "events" | "timers" | "io": order of scripted arrivals and timers at equal instants (vloop)
   wire   per carrier, the free choices of its encoding (all optional):
-         stdio   {"crlf": [bool per message], "cuts": [[byte offsets inside the exchange's block]]}
-         json    [{"status", "sess", "batch"}]                       per exchange
+         stdio   {"crlf": [bool per line], "cuts": [[byte offsets inside the exchange's block]],
+                  "batch": [bool per exchange: all its messages as ONE JSON array line],
+                  "blank": [[blank lines written before the k-th line]], "eof": bool (stdout closed after the last block)}
+         json    [{"status", "sess", "batch", "all": bool (body = array of ALL messages of the exchange)}]  per exchange
          httpsse [{"status", "sess", "evs": [{"name", "nc", "dc", "after": [ignored], "before": [event without message]}],
                    "eols", "tail", "trailing": [event without message]}]     (events as in http_gen)
-         sse     {"pre": [{"k","d","crlf"}], "crlf": [bool per message], "cuts": [[...]], "ack": [piece index]}
+         sse     {"pre": [{"k","d","crlf"}], "crlf": [bool per message], "cuts": [[...]], "ack": [piece index],
+                  "m200": [bool per exchange: the reply comes as the 200 body of the POST], "eof": bool,
+                  "untyped": [bool per message: the event has no `event:` line]}
 
 Observation per carrier: the read-stream transcript seen by a tap on the read stream (id with JSON
 type, method, params / result / error as JSON values; kind = field presence), each helper's outcome,
@@ -41,40 +54,77 @@ CARRIERS = ["stdio", "http_json", "http_sse", "sse"]
 ENDPOINT = "/messages/?session_id=verif"
 TRANSPORT_TIMEOUT_S = 8.0
 SETTLE_TICKS = 6
+FINAL_SETTLE_TICKS = 64
 
 
 # ------------------------------------------------------------------------------- conversation
 
+def json_all(case, k) -> bool:
+    w = (case.get("wire") or {}).get("json") or []
+    return bool(k < len(w) and (w[k] or {}).get("all"))
+
+
 def expressible(case, carrier) -> bool:
     if carrier == "http_json":
-        return all(not x.get("notifs") for x in case["xs"])
+        return all((not x.get("notifs") and not x.get("after")) or json_all(case, k) for k, x in enumerate(case["xs"]))
     return True
 
 
 def dumps(style, v) -> str:
     sp = bool(style.get("sp"))
+    if isinstance(v, dict):
+        if style.get("extra"):
+            v = dict(v)
+            v["x-verif-extra"] = {"a": None, "b": ""}
+        if style.get("order") == "rev":
+            v = dict(reversed(list(v.items())))
     return json.dumps(v, ensure_ascii=bool(style.get("ascii")), separators=((", ", ": ") if sp else (",", ":")))
 
 
-def notif_msg(n):
+def subst(v, tok):
+    if v == "$TOK":
+        return tok
+    if isinstance(v, list):
+        return [subst(x, tok) for x in v]
+    if isinstance(v, dict):
+        return {k: subst(x, tok) for k, x in v.items()}
+    return v
+
+
+def notif_msg(n, tok=None):
     d = {"jsonrpc": "2.0", "method": n["method"]}
     if n.get("params") is not None:
-        d["params"] = n["params"]
+        d["params"] = subst(n["params"], tok)
     return d
 
 
-def reply_msg(x, rid):
-    d = {"jsonrpc": "2.0", "id": rid}
+def reply_msg(x, req):
+    d = {"jsonrpc": "2.0", "id": req.get("id")}
     r = x["reply"]
     if "error" in r:
         d["error"] = r["error"]
     else:
         d["result"] = r["result"]
+        if x.get("echo"):
+            d["result"] = dict(r["result"], echo={"method": req.get("method"), "params": req.get("params")})
     return d
 
 
-def messages(x, rid):
-    return [notif_msg(n) for n in x.get("notifs", [])] + [reply_msg(x, rid)]
+def messages3(x, req):
+    """(before, reply, after) of one exchange, given the request as the server received it (or, for
+    the oracle, as the client built it)"""
+    meta = (req.get("params") or {}).get("_meta") if isinstance(req.get("params"), dict) else None
+    tok = meta.get("progressToken") if isinstance(meta, dict) else None
+    reply = reply_msg(x, req)
+    after = [copy.deepcopy(reply) if a.get("dup") else notif_msg(a, tok) for a in x.get("after", [])]
+    return [notif_msg(n, tok) for n in x.get("notifs", [])], reply, after
+
+
+def messages(x, req):
+    if not isinstance(req, dict):
+        req = {"id": req}
+    b, r, a = messages3(x, req)
+    return b + [r] + a
 
 
 def jsonable(v):
@@ -105,13 +155,14 @@ def kind_of(e):
     return "other"
 
 
-def expected_transcript(case, ids):
-    """the scripted conversation as read-stream entries; `ids[k]` = the id the client generated for
-    its k-th request (the server answers with the id it received)"""
+def expected_transcript(case, sent, calls):
+    """the scripted conversation as read-stream entries; `sent[k]` = the k-th request as the CLIENT built
+    it (id, method, params — taken from a tap on the write stream, i.e. before any carrier touched it)"""
     out = []
-    for k, x in enumerate(case["xs"]):
-        rid = ids[k] if k < len(ids) else None
-        for m in messages(x, rid):
+    # `calls[j]` = the call that wrote the j-th request; a call that fails before writing anything
+    # (e.g. a progress token cannot be put into a non-object `_meta`) has no exchange played
+    for k, req in zip(calls, sent):
+        for m in messages(case["xs"][k], req):
             out.append(canon_msg(m))
     return out
 
@@ -183,14 +234,19 @@ class Tap:
 class WriteTap:
     """write stream handed to the helpers: records the id of every request the client builds"""
 
-    def __init__(self, inner, ids):
+    def __init__(self, inner, ids, sent, calls):
         self._inner = inner
         self._ids = ids
+        self._sent = sent
+        self._calls = calls
+        self.current = 0   # index of the call in progress
 
     async def send(self, msg):
         get = (lambda k: msg.get(k)) if isinstance(msg, dict) else (lambda k: getattr(msg, k, None))
         if get("id") is not None and get("method") is not None:
             self._ids.append(get("id"))
+            self._sent.append({"id": get("id"), "method": get("method"), "params": jsonable(get("params"))})
+            self._calls.append(self.current)
         await self._inner.send(msg)
 
     def __getattr__(self, name):
@@ -215,20 +271,31 @@ class Server:
         self.case = case
         self.obs = obs
         self.k = 0
+        self.busy = 0  # the server works its requests off one after the other
+
+    def start(self, now, lat):
+        return max(now, self.busy) + lat
 
     def is_request(self, body):
         return isinstance(body, dict) and body.get("id") is not None and isinstance(body.get("method"), str)
 
     def take(self, body):
-        k = self.k
+        j = self.k
         self.k += 1
         self.obs["requests"].append({"method": body.get("method"), "params": body.get("params"), "id": G.idtag(body.get("id"))})
-        if k >= len(self.case["xs"]):
+        # the j-th request to arrive was written by the call `sent_calls[j]` (a call that fails before
+        # writing anything sends none): the server answers it with that call's exchange
+        calls = self.obs["sent_calls"]
+        if j >= len(calls) or calls[j] >= len(self.case["xs"]):
             self.obs["unscripted"] = self.obs.get("unscripted", 0) + 1
             return None
+        k = calls[j]
         x = self.case["xs"][k]
-        texts = [dumps(self.case.get("style") or {}, m) for m in messages(x, body.get("id"))]
+        st = self.case.get("style") or {}
+        b, r, a = messages3(x, body)
+        texts = [dumps(st, m) for m in b + [r] + a]
         self.obs["texts"].append(texts)
+        self.obs["shape"].append([len(b), len(a)])
         return k, x, texts
 
 
@@ -242,19 +309,59 @@ def nth(lst, k, dflt):
 
 # ------------------------------------------------------------------------------- helpers
 
-async def call_helper(call, rd, wr, D_s):
+def typed_eq(a, b):
+    return type(a) is type(b) and a == b
+
+
+async def call_helper(call, rd, wr, D_s, memo):
+    import anyio
     from chuk_mcp.protocol.messages.send_message import send_message, CancelledError
     from chuk_mcp.protocol.types.errors import RetryableError, NonRetryableError
     from . import helpers
 
     h = call["h"]
+    cbs = []
+    extra = {}
+    if call.get("reuse") and memo.get("params") is not None:
+        params = memo["params"]  # the very object of the previous call
+    else:
+        params = copy.deepcopy(call.get("params"))
+    memo["params"] = params
     try:
         if h == "send_message":
-            params = copy.deepcopy(call.get("params"))
             kw = {}
             if call.get("id") is not None:
                 kw["message_id"] = G.idval(call["id"])
+            if call.get("progress"):
+                async def cb(progress, total, message):
+                    cbs.append([jsonable(progress), jsonable(total), jsonable(message)])
+                kw["progress_callback"] = cb
+                extra["cbs"] = cbs
             res = await send_message(rd, wr, call.get("method", "tools/list"), params, timeout=D_s, **kw)
+        elif h == "raw":
+            from chuk_mcp.protocol.messages.json_rpc_message import create_request, JSONRPCMessage
+            rid = G.idval(call["id"])
+            form = call.get("form", "request")
+            if form == "dict":
+                msg = {"jsonrpc": "2.0", "id": rid, "method": call.get("method", "tools/list")}
+                if params is not None:
+                    msg["params"] = params
+            elif form == "legacy":
+                msg = JSONRPCMessage.create_request(call.get("method", "tools/list"), params, id=rid)
+            else:
+                msg = create_request(call.get("method", "tools/list"), params, id=rid)
+            await wr.send(msg)
+            if call.get("pause"):
+                await anyio.sleep(call["pause"] * vloop.TICK)  # the consumer is slow: nobody reads meanwhile
+            with anyio.fail_after(D_s):
+                while True:
+                    m = await rd.receive()
+                    if not isinstance(m, list) and getattr(m, "method", None) is None and typed_eq(getattr(m, "id", None), rid):
+                        break
+            err = getattr(m, "error", None)
+            if err is not None:
+                return {"outcome": "error-reply", "error": jsonable(err)}
+            res = getattr(m, "result", None)
         elif h == "send_initialize":
             from chuk_mcp.protocol.messages.initialize.send_messages import send_initialize
             res = await send_initialize(rd, wr, timeout=D_s)
@@ -262,30 +369,42 @@ async def call_helper(call, rd, wr, D_s):
             fn = helpers.discover()[0][h][0]
             res = await fn(rd, wr, D_s)
     except TimeoutError:
-        return {"outcome": "timeout"}
+        return dict({"outcome": "timeout"}, **extra)
     except CancelledError:
         return {"outcome": "cancelled"}
     except (RetryableError, NonRetryableError) as ex:
-        return {"outcome": "raised", "retryable": isinstance(ex, RetryableError), "code": jsonable(ex.code)}
+        return dict({"outcome": "raised", "retryable": isinstance(ex, RetryableError), "code": jsonable(ex.code)}, **extra)
     except Exception as ex:  # any other exception class (validation of a typed result, version mismatch …)
-        return {"outcome": "exception", "exc": type(ex).__name__}
+        return dict({"outcome": "exception", "exc": type(ex).__name__}, **extra)
     if hasattr(res, "model_dump"):
         try:
             res = {"$model": type(res).__name__, "dump": res.model_dump(by_alias=True, exclude_none=True)}
         except Exception:  # noqa
             res = {"$model": type(res).__name__}
-    return {"outcome": "returned", "value": jsonable(res)}
+    return dict({"outcome": "returned", "value": jsonable(res)}, **extra)
 
 
-async def converse(rd, wr, case, obs):
+async def converse(rd, wr, case, obs, server):
     import anyio
+    loop = asyncio.get_running_loop()
     tap = Tap(rd, obs["transcript"])
-    wtap = WriteTap(wr, obs["ids"])
-    D_s = case.get("D", 5120) * vloop.TICK
-    for x in case["xs"]:
-        obs["outcomes"].append(await call_helper(x["call"], tap, wtap, D_s))
+    wtap = WriteTap(wr, obs["ids"], obs["sent"], obs["sent_calls"])
+    memo = {}
+    for i, x in enumerate(case["xs"]):
+        wtap.current = i
+        D_s = x.get("D", case.get("D", 5120)) * vloop.TICK
+        obs["outcomes"].append(await call_helper(x["call"], tap, wtap, D_s, memo))
         await anyio.sleep(SETTLE_TICKS * vloop.TICK)
         obs["late"] += tap.drain()
+    # whatever is still under way (answers to calls that timed out, messages sent after the last reply)
+    # — wait until the server has received every request that was written and has finished writing
+    waited = 0
+    while (server.k < len(obs["sent"]) or loop.ticks < server.busy) and waited < 20000:
+        step = max(server.busy - loop.ticks, 16)
+        await anyio.sleep(step * vloop.TICK)
+        waited += step
+    await anyio.sleep(FINAL_SETTLE_TICKS * vloop.TICK)
+    obs["late"] += tap.drain()
 
 
 def cut_local(block: bytes, cuts):
@@ -300,7 +419,7 @@ async def run_stdio(case, obs):
     server = Server(case, obs)
     out = PushStream(loop)
     w = wire_of(case, "stdio") or {}
-    sent = {"msgs": 0, "pos": 0, "cuts": [], "crlf": []}
+    sent = {"msgs": 0, "pos": 0, "cuts": [], "crlf": [], "bytes": b""}
     buf = bytearray()
 
     def on_bytes(data: bytes):
@@ -319,18 +438,28 @@ async def run_stdio(case, obs):
             if r is None:
                 continue
             k, x, texts = r
+            if nth(w.get("batch"), k, False):
+                texts = ["[" + ",".join(texts) + "]"]  # the whole exchange as one JSON-RPC batch line
             block = b""
             for t in texts:
+                for bl in nth(w.get("blank"), sent["msgs"], None) or []:
+                    block += bl.encode("utf-8") + b"\n"  # blank / white-space-only lines carry nothing
                 crlf = bool(nth(w.get("crlf"), sent["msgs"], False))
                 sent["crlf"].append(crlf)
                 sent["msgs"] += 1
                 block += t.encode("utf-8") + (b"\r\n" if crlf else b"\n")
             pieces = cut_local(block, nth(w.get("cuts"), k, []))
-            now, lat, gap = loop.ticks, x.get("lat", 1), x.get("gap", 1)
+            gap = x.get("gap", 1)
+            t0 = server.start(loop.ticks, x.get("lat", 1))
+            server.busy = t0 + len(pieces) * gap
             for j, p in enumerate(pieces):
-                loop.at(now + lat + j * gap, (lambda b: (lambda: out.push(b)))(p))
+                loop.at(t0 + j * gap, (lambda b: (lambda: out.push(b)))(p))
+                sent["bytes"] += p
                 sent["pos"] += len(p)
                 sent["cuts"].append(sent["pos"])
+            if w.get("eof") and k == len(case["xs"]) - 1:
+                # the child closes its stdout after its last message and keeps running
+                loop.at(t0 + len(pieces) * gap, lambda: out.push(None))
 
     class Stdin(stdio_h.FakeStdin):
         async def send(self, data):
@@ -365,10 +494,10 @@ async def run_stdio(case, obs):
     try:
         from chuk_mcp.transports.stdio.parameters import StdioParameters
         async with mod.stdio_client(StdioParameters(command="verif-fake-child", args=[])) as (rd, wr):
-            await converse(rd, wr, case, obs)
+            await converse(rd, wr, case, obs, server)
     finally:
         stdio_h._restore(saved)
-        obs["wire"] = {"crlf": sent["crlf"], "cuts": sent["cuts"][:-1] if sent["cuts"] else []}
+        obs["wire"] = {"crlf": sent["crlf"], "cuts": sent["cuts"][:-1] if sent["cuts"] else [], "hex": sent["bytes"].hex()}
 
 
 # ------------------------------------------------------------------------------- Streamable HTTP
@@ -407,28 +536,37 @@ async def run_http(case, obs, form):
             return httpx.Response(500, text="unscripted")
         k, x, texts = r
         c = nth(w, k, None) or {}
-        await at_future(loop, loop.ticks + x.get("lat", 1))
+        server.busy = server.start(loop.ticks, x.get("lat", 1))
+        await at_future(loop, server.busy)
         headers = []
         if c.get("sess") is not None:
             headers.append(("mcp-session-id", c["sess"]))
         if form == "json":
-            raw = (("[" + texts[-1] + "]") if c.get("batch") else texts[-1]).encode("utf-8")
+            if c.get("all"):
+                text = "[" + ",".join(texts) + "]"  # the exchange as one JSON-RPC batch body
+            else:
+                text = ("[" + texts[-1] + "]") if c.get("batch") else texts[-1]
+            raw = text.encode("utf-8")
             headers.append(("content-type", "application/json"))
         else:
-            raw = G.sse_text(sse_body_of(texts, c)).encode("utf-8")
+            text = G.sse_text(sse_body_of(texts, c))
+            raw = text.encode("utf-8")
             headers.append(("content-type", "text/event-stream"))
+        obs.setdefault("bodies", []).append({"status": c.get("status", 200), "text": text})
         return httpx.Response(c.get("status", 200), headers=headers, content=raw)
 
     with http_h._MockPatch(handler):
         params = StreamableHTTPParameters(url=http_h.URL, timeout=TRANSPORT_TIMEOUT_S)
         async with http_client(params) as (rd, wr):
-            await converse(rd, wr, case, obs)
+            await converse(rd, wr, case, obs, server)
 
 
 # ------------------------------------------------------------------------------- legacy SSE
 
 def event_bytes(text: str, crlf: bool, name="message") -> bytes:
     eol = "\r\n" if crlf else "\n"
+    if name is None:  # an event without event field: the transport recognises JSON-RPC data by its look
+        return (f"data: {text}{eol}{eol}").encode("utf-8")
     return (f"event: {name}{eol}data: {text}{eol}{eol}").encode("utf-8")
 
 
@@ -493,24 +631,47 @@ async def run_sse(case, obs):
         if r is None:
             return httpx.Response(202, text="Accepted")
         k, x, texts = r
+        nb, na = obs["shape"][-1]
+        m200 = bool(nth(w.get("m200"), k, False))
+        on_stream = [t for i, t in enumerate(texts) if not (m200 and i == nb)]
         block, ends = b"", []
-        for t in texts:
+        for t in on_stream:
             crlf = bool(nth(w.get("crlf"), sent["msgs"], False))
             sent["crlf"].append(crlf)
+            untyped = bool(nth(w.get("untyped"), sent["msgs"], False))
             sent["msgs"] += 1
-            block += event_bytes(t, crlf)
+            block += event_bytes(t, crlf, None if untyped else "message")
             ends.append(len(block))
+        lat = max(x.get("lat", 2), 2)
+        now = max(loop.ticks, server.busy)
+        last = k == len(case["xs"]) - 1
+
+        def schedule(pieces, t0):
+            for j, p in enumerate(pieces):
+                loop.at(t0 + 2 * j, release(p))
+                sent["bytes"] += p
+                sent["pos"] += len(p)
+                sent["cuts"].append(sent["pos"])
+            return t0 + 2 * len(pieces)
+
+        if m200:
+            # the notifications on the stream, then the reply as the body of a 200, then what follows it
+            cut = ends[nb - 1] if nb else 0
+            t1 = schedule(cut_local(block[:cut], nth(w.get("cuts"), k, [])) if cut else [], now + lat)
+            t2 = schedule([block[cut:]] if block[cut:] else [], t1 + 2)
+            if w.get("eof") and last:
+                loop.at(t2, release(None))
+            server.busy = t2
+            sent["acks"].append(None)
+            await at_future(loop, t1 + 1)
+            return httpx.Response(200, headers={"content-type": "application/json"}, content=texts[nb].encode("utf-8"))
         pieces = cut_local(block, nth(w.get("cuts"), k, []))
         a = min(max(int(nth(w.get("ack"), k, 0)), 0), len(pieces))
-        now, lat = loop.ticks, max(x.get("lat", 2), 2)
-        done = 0
-        for j, p in enumerate(pieces):
-            loop.at(now + lat + 2 * j, release(p))
-            sent["bytes"] += p
-            sent["pos"] += len(p)
-            sent["cuts"].append(sent["pos"])
-            if j < a:
-                done += len(p)
+        done = sum(len(p) for p in pieces[:a])
+        t2 = schedule(pieces, now + lat)
+        server.busy = t2
+        if w.get("eof") and last:
+            loop.at(t2, release(None))
         # the model's `ack`: stream messages of this exchange completely delivered before the 202
         sent["acks"].append(sum(1 for e in ends if e <= done))
         await at_future(loop, now + lat + 2 * a - 1)
@@ -520,7 +681,7 @@ async def run_sse(case, obs):
         with http_h._MockPatch(handler):
             params = SSEParameters(url="http://verif.test", timeout=TRANSPORT_TIMEOUT_S)
             async with sse_client(params) as (rd, wr):
-                await converse(rd, wr, case, obs)
+                await converse(rd, wr, case, obs, server)
     finally:
         # chunk boundaries in characters (what `aiter_text` hands over piece by piece)
         cuts = [len(sent["bytes"][:c].decode("utf-8", errors="ignore")) for c in sent["cuts"][:-1]]
@@ -530,7 +691,7 @@ async def run_sse(case, obs):
 # ------------------------------------------------------------------------------- entry points
 
 def fresh_obs():
-    return {"transcript": [], "outcomes": [], "ids": [], "requests": [], "texts": [], "late": 0}
+    return {"transcript": [], "outcomes": [], "ids": [], "sent": [], "sent_calls": [], "requests": [], "texts": [], "shape": [], "late": 0}
 
 
 def run_carrier(case, carrier):
